@@ -378,7 +378,7 @@ Fixpoint flush_acks (k : kcp) (h : seg) (st : stage) (al : list (Z * Z)) : res (
   end.
 
 (* phase 4: snd_queue -> snd_buf while snd_nxt < snd_una + cwnd *)
-Fixpoint admit (sq sb : list seg) (cv una nxt cw : Z) (n : Z) : list seg * list seg * Z * Z :=
+Fixpoint admit_segs (sq sb : list seg) (cv una nxt cw : Z) (n : Z) : list seg * list seg * Z * Z :=
   match sq with
   | [] => (sq, sb, nxt, n)
   | s :: t =>
@@ -386,7 +386,7 @@ Fixpoint admit (sq sb : list seg) (cv una nxt cw : Z) (n : Z) : list seg * list 
       else
         let s' := mkSeg cv c_IKCP_CMD_PUSH (s_frg s) (s_wnd s) (s_ts s) nxt (s_una s)
                         (s_rto s) (s_xmit s) (s_resendts s) (s_fastack s) (s_acked s) (s_data s) in
-        admit t (sb ++ [s']) cv una (u32 (nxt + 1)) cw (n + 1)
+        admit_segs t (sb ++ [s']) cv una (u32 (nxt + 1)) cw (n + 1)
   end.
 
 Record fl := mkFl { f_st : stage; f_change : Z; f_lost : Z; f_fast : Z; f_early : Z;
@@ -487,7 +487,7 @@ Definition flush (k : kcp) (ftype : Z) (now : Z) : res (kcp * Z * list bytes) :=
   let cw := if nocwnd k3 =? 0 then Z.min (cwnd k3) cw0 else cw0 in
   let '(sq, sb, nxt, newsegs) :=
     if ftype =? FLUSH_FULL
-    then admit (snd_queue k3) (snd_buf k3) (conv k3) (snd_una k3) (snd_nxt k3) cw 0
+    then admit_segs (snd_queue k3) (snd_buf k3) (conv k3) (snd_una k3) (snd_nxt k3) cw 0
     else (snd_queue k3, snd_buf k3, snd_nxt k3, 0) in
   let k4 := set_snd_nxt (set_queues k3 sq (rcv_queue k3) sb (rcv_buf k3)) nxt in
   let resent := if fastresend k4 <=? 0 then 4294967295 else u32 (fastresend k4) in
